@@ -167,6 +167,11 @@ def catalogue(thorough: bool) -> t.List[Stream]:
     out.append(Stream("client", ["search"], [huge, _with_id(don[0], 1)], 0, "3-octet-length"))
     hugereq = L.ExtendedRequest(1, [], "1.2", b"v" * 65536)
     out.append(Stream("server", [], [hugereq, _with_id(er[0], 2)], 2, "3-octet-length-off-boundary"))
+    # messages above the sizes at which an implementation might start to treat pending data differently (256 KiB, 1 MiB, 16 MiB)
+    out.append(Stream("client", ["search"], [L.SearchResultEntry(1, [], "cn=x", [L.PartialAttribute("jpegPhoto", [b"\xfe" * 300_000])]), _with_id(don[0], 1)], 0, "300KB-value"))
+    out.append(Stream("server", [], [L.ExtendedRequest(1, [], "1.2", b"w" * 1_200_000), _with_id(er[0], 2)], 1, "1.2MB-value-off-boundary"))
+    if thorough:
+        out.append(Stream("client", ["ext", "search"], [L.ExtendedResponse(1, [], ok, None, b"W" * 17_000_000), _with_id(don[0], 2)], 0, "17MB-value"))
     if thorough:
         bigreq = L.SearchRequest(1, [L.PagedResultControl(True, 500, b"c" * 200)], "dc=" + "x" * 200, L.SearchScope.SUBTREE, L.DereferencingPolicy.NEVER, 0, 0, False, L.FilterEquality("cn", b"v" * 150), ["a" * 128])
         out.append(Stream("server", [], [bigreq, _with_id(er[0], 2)], 0, "long"))
@@ -427,6 +432,60 @@ def bystander_stream(st: Stream) -> evid.Local:
     return loc
 
 
+def terminated_stream(st: Stream, term: bytes, label: str) -> evid.Local:
+    """A well-formed stream followed by a terminating PDU (UnbindRequest to a server, notice of disconnection to a client).
+    A single delivery raises ProtocolError and leaves the session CLOSED; so must every partition into <= 3 chunks: the
+    chunk that completes the terminator raises, the session is CLOSED afterwards, and what was returned before is a prefix
+    of the stream's messages that contains at least every message completed in an earlier chunk."""
+    loc = evid.Local()
+    body = st.data()
+    s = body + term
+    n = len(s)
+    units, _ = ber.frame(s)
+    ends = [e for _s, e in units]
+    want = [A.src(m) for m in session_for(st).receive(body)]
+    case = {**st.describe(), "terminator": label}
+    one = session_for(st)
+    try:
+        one.receive(s)
+        loc.violation(f"terminated:single-delivery-returns:{label}", f"a single delivery of the stream ending in {label} returned normally", {**case, "cuts": []})
+        return loc
+    except L.ProtocolError:
+        ref_view = A.public_view(one)
+    except BaseException as e:  # noqa: BLE001
+        loc.violation(f"terminated:raises:{type(e).__name__}:{label}", f"single delivery: {type(e).__name__}: {e}", {**case, "cuts": []})
+        return loc
+    cols = column_set(n, ends, n > 60)
+    for a in cols:
+        for b in (c for c in cols if c >= a):
+            cuts = sorted({0, a, b, n})
+            me = session_for(st)
+            got: t.List[str] = []
+            raised_at = None
+            loc.add("transitions", len(cuts) - 1)
+            for lo, hi in zip(cuts, cuts[1:]):
+                try:
+                    got += [A.src(m) for m in me.receive(s[lo:hi])]
+                except L.ProtocolError:
+                    raised_at = hi
+                    break
+                except BaseException as e:  # noqa: BLE001
+                    raised_at = -1
+                    loc.violation(f"terminated:raises:{type(e).__name__}:{label}", f"chunks {cuts}: {type(e).__name__}: {e}", {**case, "cuts": cuts})
+                    break
+            if raised_at == -1:
+                continue
+            must = sum(1 for e in ends[:-1] if e <= max([c for c in cuts if c < (raised_at or n)] + [0]))
+            if raised_at != n:
+                loc.violation(f"terminated:{'no-error' if raised_at is None else 'early-error'}:{label}", f"chunks {cuts}: {'no delivery raised' if raised_at is None else f'the delivery ending at {raised_at} raised'}; the terminator is complete at {n}", {**case, "cuts": cuts})
+            elif A.public_view(me) != ref_view:
+                loc.violation(f"terminated:state-depends-on-chunking:{label}", f"chunks {cuts}: session shows {A.public_view(me)}, after a single delivery {ref_view}", {**case, "cuts": cuts})
+            elif got != want[: len(got)] or len(got) < must:
+                loc.violation(f"terminated:messages-before-terminator:{label}", f"chunks {cuts}: {len(got)} messages returned before the error, {must} were complete in earlier chunks", {**case, "cuts": cuts})
+    loc.distinct.add(("terminated", st.role, label, n))
+    return loc
+
+
 _X: t.Dict[str, t.Any] = {}
 
 
@@ -434,6 +493,10 @@ def _work(job: t.Tuple[int, str]) -> evid.Local:
     st = _X["streams"][job[0]]
     if job[1] == "bystander":
         return bystander_stream(st)
+    if job[1] == "terminated":
+        if st.role == "server":
+            return terminated_stream(st, L.UnbindRequest(0, []).pack(K.OPTS), "unbind")
+        return terminated_stream(st, L.ExtendedResponse(0, [], L.LDAPResult(L.LDAPResultCode.UNAVAILABLE, "", "bye", None), "1.3.6.1.4.1.1466.20036", None).pack(K.OPTS), "notice")
     return explore_stream(st, [job[1]])
 
 
@@ -452,6 +515,7 @@ def run(ctx: evid.Ctx) -> None:
     multi = sorted((i for i, st in enumerate(streams) if len(st.msgs) >= 2 and st.encoding == "lib" and st.tail == 0 and len(st.data()) <= 400), key=lambda i: len(streams[i].data()))
     picked = [i for r in ("client", "server") for i in [j for j in multi if streams[j].role == r][: (12 if thorough else 4)]]
     jobs += [(i, "bystander") for i in picked]
+    jobs += [(i, "terminated") for i in picked]
     ctx.note("bystander_streams", [len(streams[i].data()) for i in picked])
     jobs.sort(key=lambda j: -len(streams[j[0]].data()))
     for loc in par.pmap(_work, jobs, ctx.seed):
@@ -479,6 +543,21 @@ def run(ctx: evid.Ctx) -> None:
 def replay(case: t.Dict[str, t.Any], key: t.Optional[str] = None) -> t.Tuple[bool, str]:
     st = Stream(case["role"], case["prelude"], [A.unsrc(m) for m in case["msgs"]], case["tail"], "replay", case.get("encoding", "lib"))
     s = st.data()
+    if case.get("terminator"):
+        term = L.UnbindRequest(0, []).pack(K.OPTS) if st.role == "server" else L.ExtendedResponse(0, [], L.LDAPResult(L.LDAPResultCode.UNAVAILABLE, "", "bye", None), "1.3.6.1.4.1.1466.20036", None).pack(K.OPTS)
+        full = s + term
+        me, states = session_for(st), []
+        cuts = sorted(set([0] + list(case["cuts"]) + [len(full)]))
+        for lo, hi in zip(cuts, cuts[1:]):
+            try:
+                me.receive(full[lo:hi])
+                states.append(f"[{lo}:{hi}] returned, state {me.state.name}")
+            except BaseException as e:  # noqa: BLE001
+                states.append(f"[{lo}:{hi}] raised {type(e).__name__}, state {me.state.name}")
+                break
+        loc = terminated_stream(st, term, case["terminator"])
+        hits = [v for k, v in loc.viol.items() if key is None or k == key]
+        return (not hits), "\n".join("  " + x for x in states) + "".join(f"\n  {v['key']}: {v['what']}" for v in hits[:3])
     if case.get("bystander"):
         r = _bystander_run(st, s, case["cuts"], [A.src(m) for m in session_for(st).receive(s)], case.get("phase", 0))
         return (r is None), (f"  {r[0]}: {r[1]}" if r else f"  chunks {case['cuts']} with a second live session in between: all messages intact")
